@@ -3,6 +3,7 @@ package main
 import (
 	"encoding/json"
 	"fmt"
+	"strconv"
 	"strings"
 
 	mxj "github.com/clbanning/mxj/v2"
@@ -99,6 +100,9 @@ func c07Check(c *Ctx, m map[string]interface{}, path string, pol int, choices []
 		return false
 	}
 	c.RetainVal("Map.ValuesForPath", got, cas)
+	if !c.NoAlias("Map.ValuesForPath", got, m, c07Shape(m, steps), cas, choices) {
+		return len(exp) > 0
+	}
 	gotD := dumpSeq(got)
 	match := func(e []string) bool {
 		if wild {
@@ -166,7 +170,7 @@ func c07Check(c *Ctx, m map[string]interface{}, path string, pol int, choices []
 
 func c07Run(c *Ctx) {
 	mustBeDefault(c)
-	c.S.Rule = "cases = (Map, path): Maps are all map templates with <= N nodes over keys {a,ab,k} (one key is a prefix of another) (lists <= 3 members, maps <= 3 keys, empty containers, list-in-list for non-indexed paths) with unique leaves, plus a wide family (40-key map, 40-member list) and a deep family (four levels a.k.a.k, each a map / one-member list / two-member list of maps, 81 shapes plus heterogeneous variants, every four-step path over {key,key[0],key[1],*}); paths are step sequences of length <= L over {a,ab,k,z,*,a[0..2],ab[0..2],k[0..2]} enumerated per Map by depth-first extension (a prefix denoting nothing is extended by one more step, then abandoned); each case is run under ascending and descending map-iteration order and, for wildcard paths, under every single deviation from the sorted order (E-choice bound 1; bound 2 in thorough on the smaller Maps). Results are retained (last 16) and re-checked slot by slot after every later call. non-trivial = the reference says the path denotes at least one value."
+	c.S.Rule = "cases = (Map, path): Maps are all map templates with <= N nodes over keys {a,ab,k} (one key is a prefix of another) (lists <= 3 members, maps <= 3 keys, empty containers, list-in-list for non-indexed paths) with unique leaves, plus a wide family (maps and lists of 16, 31, 32, 33, 40, 63, 64 and 65 members) and a deep family (four levels a.k.a.k, each a map / one-member list / two-member list of maps, 81 shapes plus heterogeneous variants, every four-step path over {key,key[0],key[1],*}); paths are step sequences of length <= L over {a,ab,k,z,*,a[0..2],ab[0..2],k[0..2]} enumerated per Map by depth-first extension (a prefix denoting nothing is extended by one more step, then abandoned); each case is run under ascending and descending map-iteration order and, for wildcard paths, under every single deviation from the sorted order (E-choice bound 1; bound 2 in thorough on the smaller Maps). Results are retained (last 16) and re-checked slot by slot after every later call. non-trivial = the reference says the path denotes at least one value."
 	c.S.Assumptions = []string{"reference path semantics written from the documentation (harness/ref_path.go)", "list directly inside a list under a plain key: one-level and recursive readings both accepted"}
 	maxNodes, maxLen, echoiceNodes := 5, 3, 5
 	if c.Thorough {
@@ -269,27 +273,31 @@ func c07Run(c *Ctx) {
 	})
 
 	// wide family: results beyond the internal initial capacity of 32
-	wide := func() map[string]interface{} {
+	wide := func(width int) map[string]interface{} {
 		leaf := strLeaves()
 		wm := map[string]interface{}{}
-		for i := 0; i < 40; i++ {
+		for i := 0; i < width; i++ {
 			wm[fmt.Sprintf("w%02d", i)] = leaf()
 		}
-		wl := make([]interface{}, 40)
+		wl := make([]interface{}, width)
 		for i := range wl {
 			wl[i] = map[string]interface{}{"x": leaf(), "y": []interface{}{leaf(), leaf()}}
 		}
-		wl2 := make([]interface{}, 40)
+		wl2 := make([]interface{}, width)
 		for i := range wl2 {
 			wl2[i] = leaf()
 		}
 		return map[string]interface{}{"m": wm, "l": wl, "s": wl2, "d": map[string]interface{}{"m": deepCopy(wm), "l": deepCopy(wl)}}
 	}
-	for _, p := range []string{"m", "m.*", "*", "l", "l.x", "l.y", "l.*", "s", "s.*", "*.*", "d.m.*", "d.l.x", "d.l.y", "d.*.*", "*.l.x", "l[39].x", "l[39].y[1]", "l[40]", "s[39]", "s[40]", "d.l[39].x", "d.l.y[1]", "l.y[0]", "m.w39", "*.*.*", "l.z", "d.l[0].y[1]"} {
-		if !c.Mine() {
-			continue
+	// widths around the internal initial result capacity (32) and its first doubling (64)
+	for _, width := range []int{16, 31, 32, 33, 40, 63, 64, 65} {
+		last := strconv.Itoa(width - 1)
+		for _, p := range []string{"m", "m.*", "*", "l", "l.x", "l.y", "l.*", "s", "s.*", "*.*", "d.m.*", "d.l.x", "d.l.y", "d.*.*", "*.l.x", "l[" + last + "].x", "l[" + last + "].y[1]", "l[" + strconv.Itoa(width) + "]", "s[" + last + "]", "s[" + strconv.Itoa(width) + "]", "d.l[" + last + "].x", "d.l.y[1]", "l.y[0]", "m.w" + fmt.Sprintf("%02d", width-1), "*.*.*", "l.z", "d.l[0].y[1]"} {
+			if !c.Mine() {
+				continue
+			}
+			runCase(wide(width), 999, p)
 		}
-		runCase(wide(), 999, p)
 	}
 
 	// deep family: four levels a.k.a.k, each level a map, a one-member list or a two-member list of maps
